@@ -512,7 +512,9 @@ func (p *parser) doImport(nesting int) error {
 		// format, won't check for nesting correctness or any other error, that's what parser does.
 		if !maybeSnippet && nesting == 0 {
 			// first of the line
-			if i == 0 || isNextOnNewLine(tokensCopy[i-1], token) {
+			// (tokensCopy is shorter than i when an earlier variadic
+			// placeholder expanded to nothing; don't index past its end)
+			if i == 0 || i > len(tokensCopy) || isNextOnNewLine(tokensCopy[i-1], token) {
 				index = 0
 			} else {
 				index++
